@@ -553,7 +553,7 @@ class TimeSeries:
         if not self.has_data:
             return np.full(t2.shape, np.nan)
         elif not self.has_time_data:
-            return np.full(t2.shape, self.assumption)
+            return np.full(t2.shape, self.assumption, dtype=float)
 
         # Then, deal with having only 0 or 1 valid time points
         t1, v1 = self.get_arrays()
